@@ -24,7 +24,8 @@
 (***************************************************************************)
 EXTENDS Integers, Sequences, FiniteSets, TLC, Json, IOUtils
 
-CONSTANT NK
+CONSTANTS NK,
+          CheckProto   \* TRUE: also check the C10-only bookkeeping (record counts, acknowledgement counts, sync); FALSE: C05 view
 Keys == 0 .. (NK - 1)
 
 Trace == ndJsonDeserialize(IOEnv.TRACE)
@@ -72,6 +73,7 @@ Last(s) == s[Len(s)]
 IsWrite(k) == k \in {"put", "write"}
 Is(h) == E.ev = "hk" /\ E.h = h
 Same(v) == UNCHANGED v
+Proto(x) == CheckProto => x
 
 Init ==
   /\ l = 1 /\ holder = 0 /\ promised = 0 /\ grp = NoGrp /\ result = <<>> /\ ops = <<>> /\ txown = 0
@@ -219,7 +221,7 @@ WMerge ==
   /\ Is("w:merge") /\ holder = E.c /\ grp.leader = E.c /\ ~grp.journaled /\ grp.ovf = 0
   /\ E.wop \in Dom(ops) /\ IsWrite(ops[E.wop].kind) /\ E.wop \notin Members(grp)
   /\ ops[E.wop].c # E.c
-  /\ E.merged = Cardinality(Members(grp))            \* = writers merged so far, counting this one
+  /\ Proto(E.merged = Cardinality(Members(grp)))         \* = writers merged so far, counting this one
   /\ grp' = IF ops[E.wop].kind = "put"
             THEN IF grp.our = 0
                  THEN [grp EXCEPT !.segs = Append(@, <<E.wop>>), !.our = Len(grp.segs) + 1]
@@ -241,15 +243,15 @@ WOverflow ==
 \* one journal record per group, covering every member; synced if any member asked for it
 WJournal ==
   /\ Is("w:journal") /\ holder = E.c /\ grp.leader = E.c /\ ~grp.journaled
-  /\ E.nrec = SumRec(Flatten(grp.segs))
-  /\ (\E o \in Members(grp) : ops[o].sync = 1) => E.sync = 1
+  /\ Proto(E.nrec = SumRec(Flatten(grp.segs)))
+  /\ Proto((\E o \in Members(grp) : ops[o].sync = 1) => E.sync = 1)
   /\ grp' = [grp EXCEPT !.journaled = TRUE, !.jerr = E.err]
   /\ Same(<<holder, promised, result, ops, txown, commitLk, clHolder, states, pubBegun, pubEnded, pending, floor, published>>)
 
 WPubBegin ==
   /\ Is("w:publish-begin") /\ holder = E.c /\ grp.leader = E.c /\ grp.journaled /\ grp.jerr = 0 /\ ~grp.begun
   /\ pending = <<>>
-  /\ E.nrec = SumRec(Flatten(grp.segs))
+  /\ Proto(E.nrec = SumRec(Flatten(grp.segs)))
   /\ \A o \in Members(grp) : ops[o].pb <= pubBegun      \* trivially true; the point is o is still in flight
   /\ grp' = [grp EXCEPT !.begun = TRUE]
   /\ pending' = Flatten(grp.segs)
@@ -274,8 +276,8 @@ WUnlock ==
           /\ result' = [o \in Dom(result) \cup OpenWriteOf(E.c) |-> IF o \in OpenWriteOf(E.c) THEN 1 ELSE result[o]]
           /\ holder' = 0 /\ Same(<<promised, grp>>)
      ELSE /\ grp.leader = E.c
-          /\ E.merged = Cardinality(Members(grp)) - 1
-          /\ (E.overflow = 1) = (grp.ovf # 0)
+          /\ Proto(E.merged = Cardinality(Members(grp)) - 1)
+          /\ Proto((E.overflow = 1) = (grp.ovf # 0))
           /\ (E.err = 0) => grp.ended                       \* success only after the one publication
           /\ (E.err = 1) => ~grp.begun \/ grp.ended         \* (rotation after publication may still fail)
           /\ result' = [o \in Dom(result) \cup Members(grp) |-> IF o \in Members(grp) THEN E.err ELSE result[o]]
